@@ -15,7 +15,8 @@
 EXTENDS JoseDefs, TLC, Json
 
 CONSTANTS MaxOps, Dev, Kty
-DevNames == {"PublicExportLeaks", "PrivateOnPublicSilent", "KidOverwritten", "ThumbUsesOptional", "PemKeepsKid", "SetExportIgnoresFlag"}
+DevNames == {"PublicExportLeaks", "PrivateOnPublicSilent", "KidOverwritten", "ThumbUsesOptional", "PemKeepsKid", "SetExportIgnoresFlag",
+             "PublicKeySkipsFilter"}
 ASSUME Dev \subseteq DevNames
 
 Forms == IF Kty = "oct" THEN {"jwk"} ELSE {"jwk", "pem", "der"}
@@ -24,15 +25,18 @@ Kids == {"none", "given", "thumb"}
 
 VARIABLES obj, hist, lastOut
 vars == <<obj, hist, lastOut>>
-Obj(priv, origin, kid, extras) == [priv |-> priv, origin |-> origin, kid |-> kid, extras |-> extras]
+\* stray: a public-only key whose JWK view nevertheless carries private-named members (given in the JWK - RSA CRT members
+\* without d - or through the parameters argument): "arbitrary extra parameters"
+Obj(priv, origin, kid, extras, stray) == [priv |-> priv, origin |-> origin, kid |-> kid, extras |-> extras, stray |-> stray]
 Out(kind, private, ok) == [kind |-> kind, carriesPrivate |-> private, ok |-> ok]
 NoOut == Out("none", FALSE, TRUE)
 
-Init == /\ \E p \in BOOLEAN, o \in {"generated"} \cup Forms, k \in {"none", "given"}, x \in BOOLEAN :
+Init == /\ \E p \in BOOLEAN, o \in {"generated"} \cup Forms, k \in {"none", "given"}, x \in BOOLEAN, st \in BOOLEAN :
+             /\ (st => ~p /\ Kty # "oct" /\ o # "generated")
              /\ (Kty = "oct" => p)                       \* a symmetric key is always private
              /\ (o \in {"pem", "der", "generated"} => (k = "none" \/ x))    \* kid/extras come as import parameters then
              /\ (k = "given" => x)
-             /\ obj = Obj(p, o, k, x)
+             /\ obj = Obj(p, o, k, x, st)
         /\ hist = <<>> /\ lastOut = NoOut
 
 Step(op, o2, out) == /\ Len(hist) < MaxOps /\ obj' = o2 /\ lastOut' = out
@@ -42,7 +46,8 @@ Step(op, o2, out) == /\ Len(hist) < MaxOps /\ obj' = o2 /\ lastOut' = out
 Transfer ==
   \E f \in Forms, p \in PrivFlags, pw \in BOOLEAN :
     /\ (pw => f # "jwk" /\ p # "false")
-    /\ (Kty = "oct" => p # "false")          \* the public form of a symmetric key holds no key: nothing to import
+    /\ (Kty = "oct" => p # "false")
+    /\ (obj.stray /\ f = "jwk" => p = "false")   \* the as-held JWK of such an object is not a public output; only its public exports are judged          \* the public form of a symmetric key holds no key: nothing to import
     /\ LET wantPriv == IF p = "none" THEN obj.priv ELSE p = "true"
            illegal == p = "true" /\ ~obj.priv
            leaks == "PublicExportLeaks" \in Dev /\ p = "false" /\ obj.priv
@@ -53,15 +58,16 @@ Transfer ==
           ELSE Step(<<"transfer", f, p, pw>>,
                     Obj((wantPriv /\ obj.priv) \/ leaks, f,
                         IF f = "jwk" \/ "PemKeepsKid" \in Dev THEN obj.kid ELSE "none",
-                        IF f = "jwk" THEN obj.extras ELSE FALSE),
-                    Out(f, (wantPriv /\ obj.priv) \/ leaks, TRUE))
+                        IF f = "jwk" THEN obj.extras ELSE FALSE,
+                        f = "jwk" /\ obj.stray /\ (p # "false" \/ "PublicKeySkipsFilter" \in Dev)),
+                    Out(f, (wantPriv /\ obj.priv) \/ leaks \/ (f = "jwk" /\ obj.stray /\ (p # "false" \/ "PublicKeySkipsFilter" \in Dev)), TRUE))
 Thumbprint == Step(<<"thumbprint">>, obj, Out("thumbprint", "ThumbUsesOptional" \in Dev /\ obj.extras /\ FALSE, TRUE))
 EnsureKid == Step(<<"ensure_kid">>,
                   [obj EXCEPT !.kid = IF obj.kid = "none" \/ "KidOverwritten" \in Dev THEN "thumb" ELSE obj.kid],
                   Out("kid", FALSE, TRUE))
-AsDictPublic == Step(<<"as_dict_public">>, obj, Out("jwk", "PublicExportLeaks" \in Dev /\ obj.priv, TRUE))
+AsDictPublic == Step(<<"as_dict_public">>, obj, Out("jwk", ("PublicExportLeaks" \in Dev /\ obj.priv) \/ ("PublicKeySkipsFilter" \in Dev /\ obj.stray), TRUE))
 SetExportPublic == Step(<<"keyset_public">>, [obj EXCEPT !.kid = IF obj.kid = "none" THEN "thumb" ELSE obj.kid],
-                        Out("jwks", "SetExportIgnoresFlag" \in Dev /\ obj.priv, TRUE))
+                        Out("jwks", ("SetExportIgnoresFlag" \in Dev /\ obj.priv) \/ ("PublicKeySkipsFilter" \in Dev /\ obj.stray), TRUE))
 Next == Transfer \/ Thumbprint \/ EnsureKid \/ AsDictPublic \/ SetExportPublic
 Spec == Init /\ [][Next]_vars
 
